@@ -19,7 +19,7 @@ EXPLANATION = (
 ASSUMPTIONS = ["thread_data::restore_state / set_state_tagged are compare-exchange based (decided in C01.R2)",
                "agent_ref::suspend/resume forward to execution_agent (virtual dispatch not followed)"]
 THOROUGH_CONFIGS = [["-UNDEBUG", "-DPIKA_DEBUG"]]
-FLOORS = {"C02.R1": 6, "C02.R2": 6, "C02.R3": 4, "C02.R4": 2, "C02.R5": 4}
+FLOORS = {"C02.R1": 6, "C02.R2": 6, "C02.R3": 4, "C02.R4": 2, "C02.R5": 4, "C02.R6": 5}
 
 TSS = "pika::threads::detail::thread_schedule_state"
 
@@ -29,6 +29,7 @@ def run(rep, tier):
     rep.rule("C02.R2", "K2/K3: notify_one resumes the dequeued waiter exactly once after consuming the entry; notify_all drains")
     rep.rule("C02.R3", "K7/K3: set_thread_state: active => helper task or retry; loop exit only after restore_state; enqueue truth table")
     rep.rule("C02.R4", "K7: set_active_state aborts iff the tag changed; otherwise retries once with retry_on_active")
+    rep.rule("C02.R6", "K6 (must-pass-through): every wake-up entry point (execution_agent::do_resume/resume/abort, agent_ref::resume/abort, the join callback pika::resume_thread) reaches its set_thread_state(.., pending, ..) / forwarding call on every path - a wake-up is never filtered by a look at the target's current state (the target may still be 'active' in the window before it finished suspending)")
     rep.rule("C02.R5", "K8: execution_agent passes pending/suspended and yields the requested state after recording the worker")
 
     CVF = cvdetail.load(rep)
@@ -183,3 +184,30 @@ def run(rep, tier):
             rep.ok("C02.R5", dy, "do_yield records the worker and yields exactly the requested state")
         else:
             rep.bad("C02.R5", dy, loc_of(ev), "yield-args", "do_yield must forward the requested state unmodified (%s) after set_last_worker_thread_num (%s)" % (forwards, rec))
+
+    # ---- R6: wake-up entry points deliver unconditionally
+    from engine.kinds import bypass_path
+    TH = facts(rep, lib("threading", "src/thread.cpp"), [r"^pika::resume_thread$"])
+    AR = facts(rep, lib("execution_base", "src/agent_ref.cpp"), [r"^pika::execution::detail::agent_ref::(resume|abort)$"])
+    table = [(TH, r"^pika::resume_thread$", lambda e: e.get("k") == "call" and callee_of(e) == "pika::threads::detail::set_thread_state"),
+             (E, r"execution_agent::do_resume$", lambda e: e.get("k") == "call" and callee_of(e) == "pika::threads::detail::set_thread_state"),
+             (E, r"execution_agent::resume$", lambda e: e.get("k") == "call" and callee_short(e) == "do_resume"),
+             (AR, r"agent_ref::resume$", lambda e: e.get("k") == "call" and callee_short(e) == "resume"),
+             (AR, r"agent_ref::abort$", lambda e: e.get("k") == "call" and callee_short(e) == "abort")]
+    for G_, rx, deliver in table:
+        fs = [f for f in G_.find(rx) if f.parent == -1]
+        if not fs:
+            raise AnalysisBroken("wake-up entry point %s not found" % rx)
+        for f in fs:
+            if not any(deliver(e) for _, _, e in f.all_events()):
+                rep.bad("C02.R6", f, f.loc, "no-delivery:" + f.qname.rsplit("::", 1)[-1], "%s does not deliver the wake-up at all" % f.qname)
+                continue
+            byp = bypass_path(f, deliver)
+            if byp is None:
+                rep.ok("C02.R6", f, "%s delivers the wake-up on every path" % f.qname.rsplit("::", 1)[-1])
+            else:
+                conds = [T(f.blocks[b].cond) for b in byp if f.blocks[b].cond is not None]
+                rep.bad("C02.R6", f, f.loc, "wakeup-filtered:" + f.qname.rsplit("::", 1)[-1], "%s can return without delivering the wake-up (path through blocks %s, "
+                        "conditions %s): a target that has registered as a waiter but is still 'active' (not yet switched off its worker) is never resumed"
+                        % (f.qname, byp, conds[:3]), path=[{"block": b} for b in byp])
+
